@@ -482,14 +482,14 @@ theorem goodEnv_decoded (t : Tables) (c : CodeV) (V : String × Nat × Nat → N
     assignment `V` of in-width values to the `_parameters` fields — i.e. every frame that differs from a valid one by
     substituted data symbols, checksum / complement / constant fields included — the decoder either raises a library
     error or returns a code whose reported parameters re-encode to EXACTLY that frame. -/
-theorem C05_wrapper_spec (t : Tables) (w : Wrapper) (tol : Match.Tol) (htol : tol.ok) (hw : wfAll t tol = true)
+theorem C05_wrapper_spec (t : Tables) (w : Wrapper) (tol : Match.Tol) (htol : tol.ok) (hw : EngineRT t tol)
     (p : Packet) (hS : C05Spec t w p) (V : String × Nat × Nat → Nat) (hfit : ∀ prm ∈ t.params, V prm < 2 ^ widthP prm) :
     ∃ frame, buildPacket t (t.params.map (fun prm => Item.field (V prm) (widthP prm))) = .ok frame ∧
       (∀ e, (decodeP t w { last := none, tol := tol } frame).result = .error e → e.isLibrary = true) ∧
       (∀ c, (decodeP t w { last := none, tol := tol } frame).result = .ok c →
         firstFrame t w (fun n => (((c.get (Props.C01.viewKey n)).getD 0 : Nat) : Int)) = .ok frame) := by
   have hvals : (t.params.map V).length = t.params.length := by simp
-  obtain ⟨frame, hbuild, _, _, _, c, hdec, hcf, _⟩ := engine_roundtrip t tol htol hw (t.params.map V) hvals
+  obtain ⟨frame, hbuild, _, _, _, c, hdec, hcf, _⟩ := hw (t.params.map V) hvals
   rw [fieldsOf_map] at hbuild
   have hcf' : c.fields = t.params.map (fun prm => (prm.1, V prm)) := by
     rw [hcf]
